@@ -91,16 +91,20 @@ package filesystem
 //gvc:  sink Set requires aswritten: arg0.Cache == nil && arg0.ResolveUndo == nil && arg0.EndOfIndexEntry == nil
 //gvc:end
 
-// writeIndex: success means the index reached the file: a nil result implies
-// that the encoder, the buffered writer's Flush and the file's Close all
-// succeeded (the deferred Flush and Close report through the named result).
-// SetIndex fills the cache only after writeIndex returned nil, so the cache
-// never describes an index whose write failed at Flush or Close.
+// writeIndex: (1) the index file is opened for writing - which truncates it -
+// only after the encoder has accepted the whole index, so an index the
+// encoder refuses (unsupported version, timestamps out of range) leaves the
+// file as it was (property C29: a refused add / reset / commit changes
+// nothing; C20: the file keeps describing the last index that was set);
+// (2) success means the index reached the file: a nil result implies that the
+// encoder, the write and the file's Close all succeeded. SetIndex fills the
+// cache only after writeIndex returned nil.
 //gvc:func (*IndexStorage).writeIndex
-//gvc:  props C20
+//gvc:  props C20 C29
 //gvc:  theory int
 //gvc:  opt coarse
 //gvc:  opt frame args
 //gvc:  results werr
-//gvc:  ensures durable: werr == nil && calls("IndexWriter") == 1 && lastres("IndexWriter") == nil ==> calls("Flush") == 1 && lastres("Flush") == nil && calls("Encode") == 1 && lastres("Encode") == nil && now(f).#closeerr == nil && !now(f).#open
+//gvc:  sink IndexWriter requires encoded: calls("Encode") == 1 && lastres("Encode") == nil
+//gvc:  ensures durable: werr == nil ==> calls("Encode") == 1 && lastres("Encode") == nil && calls("IndexWriter") == 1 && lastres("IndexWriter") == nil && calls("Write") == 1 && lastres("Write") == nil && now(f).#closeerr == nil && !now(f).#open
 //gvc:end
